@@ -112,6 +112,8 @@ pub struct Scenario {
 }
 
 const SPECS: &[(&str, &[&str])] = &[
+    // a root optional: `null` is a valid explicit guess (the absent value) and differs from the spec's initial value
+    ("type: optional\ninitPresent: true\nvalueType:\n  type: real\n  init: 1.0\n  scale: 0.5\n", &["null", "null", "0.25", "\"x\""]),
     ("type: int\ninit: 0\nscale: 3\n", &["1", "-7", "\"x\"", "1.5"]),
     ("type: real\ninit: 0.5\nscale: 0.1\nmin: 0\nmax: 1\n", &["0.25", "1.0", "2.0", "null"]),
     ("a:\n  type: bool\n  init: true\nb:\n  type: int\n  init: 2\n  scale: 1\n  min: 0\n  max: 9\n", &["{\"a\":false,\"b\":3}", "{\"a\":false}", "{\"a\":true,\"b\":10}", "{\"a\":true,\"b\":0,\"c\":1}"]),
